@@ -37,18 +37,32 @@ BagOfSeq(s) == [x \in { s[i] : i \in DOMAIN s } |-> Cardinality({ i \in DOMAIN s
 Keys(evs) == [k \in 1..Len(evs) |-> evs[k].key]
 DefRank(key) == LET k == CHOOSE k \in 1..Len(T.def) : T.def[k].key = key IN T.def[k].r
 
-NClauses == CASE T.kind = "load" -> 4 [] T.kind = "stream" -> 5 [] T.kind = "lower" -> 3 [] OTHER -> 1
+(* C14 is RELATIVE to the default run: the reference is what the real loader returns without the flag *)
+HasM(e) == \E k \in 1..Len(e.s) : e.s[k][1] = "M"
+Ref == IF T.skip THEN SelectSeq(T.defout, LAMBDA e : ~HasM(e)) ELSE T.defout
+PM == IF \E k \in 1..Len(T.defout) : HasM(T.defout[k])
+        THEN T.defout[CHOOSE k \in 1..Len(T.defout) : HasM(T.defout[k]) /\ \A j \in 1..(k - 1) : ~HasM(T.defout[j])].p
+        ELSE <<0, 1>>
+(* p = q / (1 - pm)   <=>   p[1] * q[2] * (pm[2] - pm[1]) = p[2] * q[1] * pm[2] *)
+Rescaled(p, q, pm) == p[1] * q[2] * (pm[2] - pm[1]) = p[2] * q[1] * pm[2]
+
+NClauses == CASE T.kind = "load" -> 4 [] T.kind = "insert" -> 3 [] T.kind = "stream" -> 5 [] T.kind = "lower" -> 3 [] OTHER -> 1
 ClauseName(k) ==
   CASE T.kind = "load"   -> <<"C14_load_succeeds", "C14_same_structures_in_order", "C14_rescaled_by_1_minus_PM", "C14_numeric_residue">>[k]
+    [] T.kind = "insert" -> <<"C03_ruleset_loads", "C03_every_alpha_variable_gets_its_case_mask", "C03_probabilities_as_written">>[k]
     [] T.kind = "stream" -> <<"C14_load_succeeds", "C14_exactly_the_non_markov_preterminals", "C14_same_order", "C14_rescaled", "C14_no_markov_left">>[k]
     [] T.kind = "lower"  -> <<"C14_lower_other_types_unchanged", "C14_lower_masks_collapsed", "C14_lower_base_unchanged">>[k]
     [] OTHER             -> <<"C14_stream_is_reference">>[k]
 ClauseHolds(k) ==
-  CASE T.kind = "load" /\ k = 1 -> T.ok
-    [] T.kind = "load" /\ k = 2 -> LET e == Expected(T.file, T.skip) IN
-                                     Len(T.out) = Len(e) /\ \A j \in 1..Len(e) : T.out[j].s = e[j].s
-    [] T.kind = "load" /\ k = 3 -> LET e == Expected(T.file, T.skip) IN \A j \in 1..Len(e) : SameProb(T.out[j].p, e[j].p)
+  CASE T.kind = "load" /\ k = 1 -> T.dok => T.ok
+    [] T.kind = "load" /\ k = 2 -> Len(T.out) = Len(Ref) /\ \A j \in 1..Len(Ref) : T.out[j].s = Ref[j].s
+    [] T.kind = "load" /\ k = 3 -> \A j \in 1..Len(Ref) : IF T.skip THEN Rescaled(T.out[j].p, Ref[j].p, PM)
+                                                                     ELSE SameProb(T.out[j].p, Ref[j].p)
     [] T.kind = "load" /\ k = 4 -> \A j \in 1..Len(T.out) : T.out[j].exact
+    [] T.kind = "insert" /\ k = 1 -> T.dok
+    [] T.kind = "insert" /\ k = 2 -> LET e == Expected(T.file, FALSE) IN
+                                     Len(T.defout) = Len(e) /\ \A j \in 1..Len(e) : T.defout[j].s = e[j].s
+    [] T.kind = "insert" /\ k = 3 -> LET e == Expected(T.file, FALSE) IN \A j \in 1..Len(e) : SameProb(T.defout[j].p, e[j].p)
     [] T.kind = "stream" /\ k = 1 -> T.ok
     [] T.kind = "stream" /\ k = 2 -> /\ BagOfSeq(Keys(T.skp)) = BagOfSeq(Keys(SelectSeq(T.def, LAMBDA e : ~e.m)))
                                       /\ \A i \in 1..Len(T.skp) : \E j \in 1..Len(T.def) :
